@@ -851,3 +851,36 @@ Theorem C08_same_relocated_bytes_machine : forall (enc : list ecall -> ecall -> 
     AsmOrderBytes.apply_sites L (filter (fun rg => Nat.eqb (rg_sec rg) k) (map rghost_of (relocs s2))) (AsmOrderBytes.gbytes L offs (map (gi (refs s2)) (s_items (nsec s2 k)))).
 Proof. exact same_relocated_bytes_machine. Qed.
 Print Assumptions C08_same_relocated_bytes_machine.
+
+(* round 7: the frame conditions LIFTED TO COMMAND SEQUENCES - over any run the register size is constant, and a component no command of the
+   sequence may touch is unchanged at the end (counters / one-shot state / function+pool state / node storage) *)
+Theorem C08_run_frame : forall cs b,
+  let b' := BuilderModel.run b cs in
+  regsize b' = regsize b /\
+  (forallb (fun c => negb (BuilderFrame.touches_counters c)) cs = true -> nlabels b' = nlabels b /\ nsections b' = nsections b) /\
+  (forallb (fun c => negb (BuilderFrame.touches_oneshot c)) cs = true -> p_opts b' = p_opts b /\ p_exsig b' = p_exsig b /\ p_exid b' = p_exid b /\ p_comment b' = p_comment b) /\
+  (forallb (fun c => negb (BuilderFrame.touches_func c)) cs = true -> cur_func b' = cur_func b /\ lpool b' = lpool b /\ gpool b' = gpool b) /\
+  (forallb (fun c => negb (BuilderFrame.touches_nodes c)) cs = true -> active b' = active b /\ cursor b' = cursor b /\ pool b' = pool b /\ links b' = links b /\ dirty b' = dirty b).
+Proof. exact BuilderFrame.run_frame. Qed.
+Print Assumptions C08_run_frame.
+
+Theorem C08_run_frame_example :
+  let cs := [CSetOptions 5; CSetComment (Some [65]); CEmitRejected 26; CSetExtra 1 2] in
+  let b := init_state 8 in
+  forallb (fun c => negb (BuilderFrame.touches_nodes c)) cs = true /\ forallb (fun c => negb (BuilderFrame.touches_counters c)) cs = true /\
+  active (BuilderModel.run b cs) = active b /\ nlabels (BuilderModel.run b cs) = nlabels b /\
+  p_exsig (BuilderModel.run b cs) <> p_exsig b /\
+  active (BuilderModel.run b (cs ++ [CAlign 0 16])) <> active b.
+Proof. exact BuilderFrame.run_frame_example. Qed.
+Print Assumptions C08_run_frame_example.
+
+(* round 7: COMPLETENESS of the checker for "no delta refused for its range along the run": it is a decision procedure (both answers occur) *)
+Theorem C08_no_misfit_decided : forall t s, AsmOrderDecide.no_misfitb s t = true <-> AsmOrderAny.no_misfit s t.
+Proof. exact AsmOrderDecide.no_misfitb_iff. Qed.
+Print Assumptions C08_no_misfit_decided.
+
+Theorem C08_no_misfit_decided_example :
+  AsmOrderDecide.no_misfitb (LabelsModel.run init (prelude 2 1)) AsmOrderAny.mis_before = true /\
+  AsmOrderDecide.no_misfitb (LabelsModel.run init (prelude 2 1)) AsmOrderAny.mis_after = false.
+Proof. exact AsmOrderDecide.no_misfitb_decides. Qed.
+Print Assumptions C08_no_misfit_decided_example.
